@@ -26,13 +26,82 @@ WASIDRIVER = os.path.join(vlib.LEAN, ".lake", "build", "bin", "wasidriver")
 ABIS = ["p1", "un"]
 MAXBYTES = None          # s_maxbytes of the scratch file system, probed at run time
 RIGHTS = [wo.RIGHTS_RW, wo.R_READ, wo.R_WRITE, 0, 1 << 14, (1 << 0)]
-NAMES = ["f0", "a", "b", "d0", "d0/g", "d0/new", "nope/x", "f0/x"]
+NAMES = ["f0", "a", "b", "d0", "d0/g", "d0/new", "nope/x", "f0/x"] + wo.ABS_SAFE
+
+
+# WASI errno numbers (witx `errno`), keyed by the POSIX name — independent of wasi.h and of the twin's C table
+WITX = {"E2BIG": 1, "EACCES": 2, "EADDRINUSE": 3, "EADDRNOTAVAIL": 4, "EAFNOSUPPORT": 5, "EAGAIN": 6, "EALREADY": 7,
+        "EBADF": 8, "EBADMSG": 9, "EBUSY": 10, "ECANCELED": 11, "ECHILD": 12, "ECONNABORTED": 13, "ECONNREFUSED": 14,
+        "ECONNRESET": 15, "EDEADLK": 16, "EDESTADDRREQ": 17, "EDOM": 18, "EDQUOT": 19, "EEXIST": 20, "EFAULT": 21,
+        "EFBIG": 22, "EHOSTUNREACH": 23, "EIDRM": 24, "EILSEQ": 25, "EINPROGRESS": 26, "EINTR": 27, "EINVAL": 28,
+        "EIO": 29, "EISCONN": 30, "EISDIR": 31, "ELOOP": 32, "EMFILE": 33, "EMLINK": 34, "EMSGSIZE": 35,
+        "EMULTIHOP": 36, "ENAMETOOLONG": 37, "ENETDOWN": 38, "ENETRESET": 39, "ENETUNREACH": 40, "ENFILE": 41,
+        "ENOBUFS": 42, "ENODEV": 43, "ENOENT": 44, "ENOEXEC": 45, "ENOLCK": 46, "ENOLINK": 47, "ENOMEM": 48,
+        "ENOMSG": 49, "ENOPROTOOPT": 50, "ENOSPC": 51, "ENOSYS": 52, "ENOTCONN": 53, "ENOTDIR": 54, "ENOTEMPTY": 55,
+        "ENOTRECOVERABLE": 56, "ENOTSOCK": 57, "ENOTSUP": 58, "ENOTTY": 59, "ENXIO": 60, "EOVERFLOW": 61,
+        "EOWNERDEAD": 62, "EPERM": 63, "EPIPE": 64, "EPROTO": 65, "EPROTONOSUPPORT": 66, "EPROTOTYPE": 67,
+        "ERANGE": 68, "EROFS": 69, "ESPIPE": 70, "ESRCH": 71, "ESTALE": 72, "ETIMEDOUT": 73, "ETXTBSY": 74, "EXDEV": 75}
+
+
+def posix_errno_of(twin_line):
+    """(POSIX errno name, witx number) behind a twin error line (` !errno:<host errno>` token), or None"""
+    import errno as _errno
+    for t in wo.table_tokens(twin_line):
+        if t.startswith("errno:"):
+            name = _errno.errorcode.get(int(t.split(":")[1]))
+            if name == "EWOULDBLOCK":
+                name = "EAGAIN"
+            return name, WITX.get(name)
+    return None
 
 
 def new_hist():
     h = wo.Hist()
     wo.std_setup(h)
     return h
+
+
+FD_NONBLOCK = 4
+
+
+def nonseekable(rng):
+    """histories on descriptors lseek/pread/pwrite refuse: stdio bound to pipes, a FIFO opened through path_open"""
+    out = []
+    offs = [0, 3, (1 << 32) + 5, (1 << 62)]
+    for abi in ABIS:
+        for target in ("stdin", "stdout", "stderr", "fifo-r", "fifo-w", "fifo-rw"):
+            def start():
+                h = new_hist(); h.raw("pipestdio"); h.raw("mkfifo sb/p0")
+                if target.startswith("fifo"):
+                    rights = {"fifo-r": wo.R_READ, "fifo-w": wo.R_WRITE, "fifo-rw": wo.RIGHTS_RW}[target]
+                    h.open(abi, 3, "p0", 0, rights, FD_NONBLOCK)
+                    return h, 4
+                return h, {"stdin": 0, "stdout": 1, "stderr": 2}[target]
+            h, n = start()
+            for wh in range(4):
+                for off in (0, 5, (1 << 64) - 1):
+                    h.call(abi, "fd_seek", n, off, wh, h.res())
+            h.call(abi, "fd_tell", n, h.res())
+            out.append(("nonseekable", h))
+            h, n = start()
+            for off in offs:
+                p, c = h.iov([4]); h.call(abi, "fd_pread", n, p, c, off, h.res())
+                p, c = h.iov([b"xy"]); h.call(abi, "fd_pwrite", n, p, c, off, h.res())
+                p, c = h.iov([0]); h.call(abi, "fd_pread", n, p, c, off, h.res())
+            h.call(abi, "fd_tell", n, h.res())
+            out.append(("nonseekable", h))
+            h, n = start()
+            p, c = h.iov([b"abc", b"", b"de"]); h.call(abi, "fd_write", n, p, c, h.res())
+            p, c = h.iov([2, 0, 9]); h.call(abi, "fd_read", n, p, c, h.res())
+            p, c = h.iov([3]); h.call(abi, "fd_read", n, p, c, h.res())
+            p, c = h.iov([3]); h.call(abi, "fd_read", n, p, c, h.res())
+            h.call(abi, "fd_filestat_get", n, stat_buf(h))
+            h.call(abi, "fd_fdstat_get", n, h.res(24))
+            h.call(abi, "fd_seek", n, 0, 1, h.res())
+            h.call(abi, "fd_close", n)
+            h.call(abi, "fd_seek", n, 0, 0, h.res())
+            out.append(("nonseekable", h))
+    return out
 
 
 def offsets(rng, maxbytes):
@@ -96,12 +165,16 @@ def random_history(rng, maxbytes):
     h = new_hist()
     abi = rng.choice(ABIS)
     fds = [0, 1, 2, 4, 4, 5, 5, 6]
+    pipes = rng.random() < 0.25
+    if pipes:      # non-seekable descriptors in the mix: stdio on pipes, a FIFO (always opened non-blocking)
+        h.raw("pipestdio"); h.raw("mkfifo sb/p0")
+        h.open(abi, 3, "p0", 0, rng.choice([wo.RIGHTS_RW, wo.R_READ, wo.R_WRITE]), FD_NONBLOCK)
     # start with one or two opens so that most operations hit a file
     for _ in range(rng.choice([1, 2, 2])):
         h.open(abi, 3, rng.choice(["f0", "a", "b", "d0/g"]), rng.choice([0, wo.O_CREAT, wo.O_CREAT | wo.O_TRUNC, wo.O_TRUNC]),
                rng.choice([wo.RIGHTS_RW, wo.RIGHTS_RW, wo.R_READ, wo.R_WRITE]), wo.FD_APPEND if rng.random() < 0.25 else 0)
     for _ in range(rng.randint(3, 26)):
-        add_op(h, rng, abi if rng.random() < 0.9 else rng.choice(ABIS), fds, maxbytes)
+        add_op(h, rng, abi if rng.random() < 0.9 else rng.choice(ABIS), fds, maxbytes, heavy_offsets=not pipes)
     for n in ("f0", "a", "b", "d0/g", "d0/new"):
         h.raw("cat sb/" + n)
     h.raw("ls sb")
@@ -211,9 +284,11 @@ def first_diff(h, a, b, skip_unmodelled=True):
     for i in range(min(len(al), len(bl))):
         x, y = wo.canon_line(al[i]), wo.canon_line(bl[i])
         if skip_unmodelled and (y in ("r unmodelled", "r skip") or x in ("r unmodelled", "r skip")):
+            if wo.diverges(h.meta[i] if i < len(h.meta) else None, x if y in ("r unmodelled", "r skip") else y):
+                return None      # one side skipped a call that changed the other's state: stop comparing this history
             continue
         if x != y:
-            return i, x, y
+            return i, x, bl[i]        # (the twin line keeps its ` !errno:<n>` token for the classification)
     if len(al) != len(bl) or aend.split()[:2] != bend.split()[:2]:
         return min(len(al), len(bl)), f"<{len(al)} lines, {aend}>", f"<{len(bl)} lines, {bend}>"
     return None
@@ -224,7 +299,7 @@ def classify(h, i, real_line, twin_line):
     m = h.meta[i] if i < len(h.meta) else None
     call = m["call"] if m else (h.lines[i].split()[0] if i < len(h.lines) else "end")
     abi = m["abi"] if m else "-"
-    rp, tp = real_line.split(), twin_line.split()
+    rp, tp = real_line.split(), [t for t in twin_line.split() if not t.startswith("!")]
     if call == "fd_filestat_get" and abi == "un" and len(rp) > 1 and len(tp) > 1 and rp[1] == tp[1] == "0":
         return "unstable-filestat-overwrites-8-bytes", "wasi_unstable fd_filestat_get zeroes 64 bytes although the unstable filestat has 56: 8 guest bytes past the struct are overwritten"
     if call in ("fd_pread", "fd_pwrite") and m and MAXBYTES is not None and MAXBYTES < m["args"][3] < (1 << 63):
@@ -233,6 +308,11 @@ def classify(h, i, real_line, twin_line):
                 f"pread/pwrite give `{twin_line[:20]}` (0 bytes / EFBIG / EBADF)")
     if call == "fd_seek" and m and m["args"][2] > 2 and rp[:2] == ["r", "28"] and tp[:2] == ["r", "8"]:
         return "ebadf-precedence-fd_seek-bad-whence", "fd_seek with an invalid whence on an invalid descriptor returns EINVAL; lseek(2) reports EBADF"
+    pe = posix_errno_of(twin_line)
+    if pe and len(rp) > 1 and rp[0] == "r" and rp[1].isdigit() and pe[1] is not None and int(rp[1]) != pe[1] \
+            and len(tp) > 1 and tp[1] == str(pe[1]) and rp[1] != "0":
+        return (f"errno-translation:{pe[0]}-reported-as-{rp[1]}",
+                f"{call}: the POSIX operation fails with {pe[0]} (WASI errno {pe[1]}), wasi.c returns {rp[1]}")
     if len(rp) > 1 and len(tp) > 1 and rp[0] == tp[0] == "r" and rp[1] != tp[1]:
         if rp[1] == "28" and tp[1] in ("37", "55", "32", "61"):
             return "errno-table-missing-rows", f"{call}: POSIX errno maps to WASI {tp[1]}, wasiErrno() has no row for it and returns INVAL (28)"
@@ -299,7 +379,7 @@ def run(tier):
         maxbytes = wo.probe_maxbytes(d)
         global MAXBYTES
         MAXBYTES = maxbytes
-        tagged = corpus() + systematic(chk.rng, maxbytes)
+        tagged = corpus() + systematic(chk.rng, maxbytes) + nonseekable(chk.rng)
         n_rand = 600 if tier == "quick" else 12000
         for _ in range(n_rand):
             tagged.append(("random", random_history(chk.rng, maxbytes)))
@@ -345,6 +425,10 @@ def run(tier):
                     if n_tie <= 5:
                         broken.append({"kind": "correspondence", "msg": f"wasi-ops history {idx} ({tag}) line {dm[0]} `{h.lines[dm[0]] if dm[0] < len(h.lines) else 'end'}`: real `{dm[1]}` model `{dm[2]}`",
                                        "history": h.lines})
+            for tl in t[0]:
+                pe = posix_errno_of(tl)
+                if pe and pe[1] is not None and tl.split()[1] != str(pe[1]):
+                    raise RuntimeError(f"POSIX twin translates {pe[0]} to {tl.split()[1]}, the witx number is {pe[1]}")
             dt = first_diff(h, r, t)
             if dt:
                 # is it the code or our POSIX model?  (model agrees with the twin => the code deviates)
